@@ -5,6 +5,7 @@ import (
 	"math"
 	"reflect"
 	"sort"
+	"strconv"
 	"strings"
 
 	at "github.com/DanielSvub/anytype"
@@ -251,6 +252,11 @@ func checkListViews(c *C14Case, st *Stats) error {
 	}
 	l := listByRoute(shape, vals, c.Route%numListRoutes, c.Pred)
 	st.Count(fmt.Sprintf("route.%d", c.Route%numListRoutes))
+	if pl := parsedTwin(c, vals); pl != nil {
+		// the same elements obtained from the parser, numbers in spellings that are not the serialiser's own
+		l = pl
+		st.Count("route.parsed_text")
+	}
 	if err := verifyListViews(l, vals, c.Kinds, c.Pred, c.Res, st); err != nil {
 		return err
 	}
@@ -310,6 +316,55 @@ func checkListViews(c *C14Case, st *Stats) error {
 		}
 	}
 	return nil
+}
+
+// parsedTwin returns the list the library's parser builds for a text holding the scalar elements of the
+// case (floats spelled 3.50 / 3.5e0 / 35E-1, ints with an exponent-free spelling), or nil if the case has
+// container / non-finite / derived elements, is not selected (one case in four), or the parsed list does not
+// hold exactly these values and kinds (which is the business of C03).
+func parsedTwin(c *C14Case, vals []any) at.List {
+	if c.Derived || c.NonFinite || c.Route%4 != 1 || len(vals) == 0 {
+		return nil
+	}
+	var sb strings.Builder
+	sb.WriteByte('[')
+	for i, v := range vals {
+		if i > 0 {
+			sb.WriteByte(',')
+		}
+		switch x := v.(type) {
+		case nil:
+			sb.WriteString("null")
+		case bool:
+			sb.WriteString(strconv.FormatBool(x))
+		case int:
+			sb.WriteString(strconv.Itoa(x))
+		case float64:
+			switch i % 3 {
+			case 0:
+				sb.WriteString(strconv.FormatFloat(x, 'f', 2, 64))
+			case 1:
+				sb.WriteString(strconv.FormatFloat(x, 'f', 1, 64) + "e0")
+			default:
+				sb.WriteString(strconv.FormatFloat(x*10, 'f', 0, 64) + "E-1")
+			}
+		case string:
+			sb.WriteString(strconv.Quote(x))
+		default:
+			return nil
+		}
+	}
+	sb.WriteByte(']')
+	var l at.List
+	if _, panicked := catch(func() { l, _ = at.ParseList(sb.String()) }); panicked || l == nil || l.Count() != len(vals) {
+		return nil
+	}
+	for i, v := range vals {
+		if !ifaceEq(l.Get(i), v) || l.TypeOf(i) != typeOfAny(v) {
+			return nil
+		}
+	}
+	return l
 }
 
 func verifyListViews(l at.List, vals []any, kinds []Kind, predSel int, resMode int, st *Stats) error {
@@ -921,7 +976,7 @@ func CheckC14(c *C14Case, st *Stats) error {
 
 func init() {
 	Register("C14",
-		"lists and objects of 0-16 (occasionally 33-130) elements, built through drawn construction routes (Add, NewList, NewListFrom, NewListOf+Replace, Concat, SubList, typed-slice origin + Insert, grow-and-shrink; objects optionally from a map[string]int), whose kind sequence is drawn from an alphabet of 1-4 of the seven kinds with repetition (several elements of one kind interleaved with others, kinds absent, empty container); element values are pairwise distinct and encode their position (the first element of each scalar kind may be the zero value; in one case of four some floats are +Inf, -Inf or NaN). Views are also used from inside a callback of another view of the same list. For every kind X of {object, list, string, bool, int, float}: XSlice, ForEachX (callback log), MapXs (injective tag; in half of the cases a second pass whose callback returns nil for every / about half of the values, the value itself, or the zero value of the kind - each result must be stored as returned, nil included), FilterXs (predicates all/none/alternate/by value; identity for containers), ReduceXs with non-commutative folds, AllXs and AllNumeric, plus the untyped ForEach/ForEachValue/Map/MapValues/Filter/Reduce (index and value, in order, once); for objects ForEach/ForEachValue/ForEachX as multisets and Map/MapValues/MapXs storing under the same key and nothing else. The method table is compared with the interface by reflection (unknown view methods are reported as unclassified). Non-trivial = some kind occurs at least twice with an element of another kind between. Distinct = distinct FNV-64a hash of the case JSON.",
+		"lists and objects of 0-16 (occasionally 33-130) elements, built through drawn construction routes (Add, NewList, NewListFrom, NewListOf+Replace, Concat, SubList, typed-slice origin + Insert, grow-and-shrink; objects optionally from a map[string]int; lists of scalars in one case of four from the parser, floats spelled 3.50 / 3.5e0 / 35E-1), whose kind sequence is drawn from an alphabet of 1-4 of the seven kinds with repetition (several elements of one kind interleaved with others, kinds absent, empty container); element values are pairwise distinct and encode their position (the first element of each scalar kind may be the zero value; in one case of four some floats are +Inf, -Inf or NaN). Views are also used from inside a callback of another view of the same list. For every kind X of {object, list, string, bool, int, float}: XSlice, ForEachX (callback log), MapXs (injective tag; in half of the cases a second pass whose callback returns nil for every / about half of the values, the value itself, or the zero value of the kind - each result must be stored as returned, nil included), FilterXs (predicates all/none/alternate/by value; identity for containers), ReduceXs with non-commutative folds, AllXs and AllNumeric, plus the untyped ForEach/ForEachValue/Map/MapValues/Filter/Reduce (index and value, in order, once); for objects ForEach/ForEachValue/ForEachX as multisets and Map/MapValues/MapXs storing under the same key and nothing else. The method table is compared with the interface by reflection (unknown view methods are reported as unclassified). Non-trivial = some kind occurs at least twice with an element of another kind between. Distinct = distinct FNV-64a hash of the case JSON.",
 		GenC14, CheckC14)
 }
 
